@@ -190,7 +190,7 @@ pub fn cost_strategy(thorough: bool) -> BoxedStrategy<CostCase> {
         pattern,
         bulk: CBulk::None,
         steps: vec![],
-        script: Some(crate::huge::HugeCase { huge: true, kind, n, pattern, seed: seed % 1000, cost: true, prelude }),
+        script: Some(crate::huge::HugeCase { huge: true, kind, n, pattern, seed: seed % 1000, cost: true, prelude, script: 0, aim: 0 }),
     });
     prop_oneof![48 => plain, 1 => script].boxed()
 }
